@@ -589,8 +589,16 @@ private:
             // Attempt to convert the index to a number
             QUILL_TRY
             {
-              _created_files.emplace_front(current_file, static_cast<uint32_t>(std::stoul(index)),
-                                           std::string{});
+              size_t parsed_chars{0};
+              unsigned long const parsed_index = std::stoul(index, &parsed_chars);
+
+              if (parsed_chars != index.size())
+              {
+                // not one of our files, e.g. "name.5x.log"
+                continue;
+              }
+
+              _created_files.emplace_front(current_file, static_cast<uint32_t>(parsed_index), std::string{});
             }
             QUILL_CATCH_ALL() { continue; }
           }
@@ -630,8 +638,16 @@ private:
                   // Attempt to convert the index to a number
                   QUILL_TRY
                   {
-                    _created_files.emplace_front(
-                      current_file, static_cast<uint32_t>(std::stoul(index_or_date)), date_part);
+                    size_t parsed_chars{0};
+                    unsigned long const parsed_index = std::stoul(index_or_date, &parsed_chars);
+
+                    if (parsed_chars != index_or_date.size())
+                    {
+                      // not one of our files
+                      continue;
+                    }
+
+                    _created_files.emplace_front(current_file, static_cast<uint32_t>(parsed_index), date_part);
                   }
                   QUILL_CATCH_ALL() { continue; }
                 }
